@@ -197,6 +197,8 @@ type simReader struct {
 	whole  bool // deliver as much as asked (no chunking)
 	chunks []int
 	zero   int
+	// eofWithData: the read that delivers the last byte of the stream also returns io.EOF
+	eofWithData bool
 }
 
 func (r *simReader) Read(p []byte) (int, error) {
@@ -238,6 +240,12 @@ func (r *simReader) Read(p []byte) (int, error) {
 	copy(p, r.data[r.off:r.off+n])
 	r.off += n
 	r.chunks = append(r.chunks, n)
+	if r.eofWithData && r.off == len(r.data) {
+		// io.Reader allows the final bytes and io.EOF in the same call (iotest.DataErrReader,
+		// HTTP bodies of known length, …)
+		r.chunks = append(r.chunks, -1)
+		return n, io.EOF
+	}
 	return n, nil
 }
 
@@ -389,7 +397,11 @@ func runC03(t *core.Tape, tier string, info *core.RunInfo) *core.Violation {
 	}
 
 	// ---- stream -> receiver ----
-	rd := &simReader{data: stream.Bytes(), eofAt: -1, failAt: -1, t: t, whole: t.Bool("cfg.whole", 150)}
+	rd := &simReader{data: stream.Bytes(), eofAt: -1, failAt: -1, t: t, whole: t.Bool("cfg.whole", 150), eofWithData: t.Bool("cfg.eofdata", 300)}
+	if rd.eofWithData {
+		info.Faults["final-bytes-with-eof"]++
+		info.NonTrivial = true
+	}
 	for i, v := range seq {
 		var dp kyber.Point
 		var ds kyber.Scalar
@@ -508,7 +520,16 @@ func useAccepted(gr *grp, p kyber.Point, raw []byte) (string, *core.Violation) {
 	g := gr.g
 	var reenc []byte
 	if pn := core.Guard(func() {
-		q := g.Point().Add(p, g.Point().Base())
+		// a target group has no generator of its own in every implementation
+		// (kilic's GT.Base is a documented "unsupported operation"): e(G1,G2) is the one
+		// protocol code has
+		var base kyber.Point
+		if gr.which == 3 {
+			base = gr.suite.Pair(gr.suite.G1().Point().Base(), gr.suite.G2().Point().Base())
+		} else {
+			base = g.Point().Base()
+		}
+		q := g.Point().Add(p, base)
 		_ = g.Point().Sub(q, p)
 		_ = g.Point().Neg(p)
 		_ = g.Point().Mul(g.Scalar().SetInt64(2), p)
@@ -665,6 +686,7 @@ func runC04(t *core.Tape, tier string, info *core.RunInfo) *core.Violation {
 		}
 	}
 	for ci, b := range cases {
+		b = append(make([]byte, 0, len(b)), b...) // exact capacity, as bytes off the wire
 		_, ub, get := newV()
 		var err error
 		if pn := core.Guard(func() { err = ub(b) }); pn != nil {
@@ -824,6 +846,9 @@ func runComposite(t *core.Tape, tier string, info *core.RunInfo) *core.Violation
 	}
 	L := len(c.valid)
 	try1 := func(what string, b []byte, mustErr bool) *core.Violation {
+		// bytes off the wire: exactly as long as they are (a sub-slice of the valid message would hide
+		// reads past the end behind the spare capacity of the original buffer)
+		b = append(make([]byte, 0, len(b)), b...)
 		var err error
 		if pn := core.Guard(func() { err = c.parse(b) }); pn != nil {
 			return viol("C04", "totality", "composite-panic/"+c.name, "%s (%d of %d bytes): panicked: %v | %s", what, len(b), L, pn, core.LastStack())
